@@ -62,7 +62,9 @@ def _importlib_resources_is_resource(package: str, name: str) -> bool:
     )
 
 def _get_submodules(pkg: str) -> Iterator[str]:
-    for name in _importlib_resources_contents(pkg):
+    # sorted: the order in which the extensions are loaded (their mixins, visitors and post-processors are
+    # registered in that order) must not depend on how the file system lists the package directory.
+    for name in sorted(_importlib_resources_contents(pkg)):
         if (not name.startswith('_') and _importlib_resources_is_resource(pkg, name)) and name.endswith('.py'):
             name = name[:-len('.py')]
             yield f"{pkg}.{name}"
